@@ -4,8 +4,8 @@
 No source file is copied or edited: the functions that run are compiled from
 the files under $NAUTILUS_REPO/nautilus as they are now.  One AST rewrite is
 applied (and reported): inside functions named `sample`, an assignment
-`n_sample = <int literal>` becomes `n_sample = _SYMX_BLOCK` so that proposal
-blocks have 1-3 rows instead of 1000.
+`n_sample = <int literal>` (and the literal 1000 anywhere in such a function)
+becomes `_SYMX_BLOCK` so that proposal blocks have 1-3 rows instead of 1000.
 """
 import ast
 import os
@@ -39,6 +39,14 @@ class _BlockRewriter(ast.NodeTransformer):
             self.rewrites.append((node.lineno, node.value))
             return ast.copy_location(
                 ast.Name(id='_SYMX_POOLMIN', ctx=ast.Load()), node)
+        # the proposal block literal wherever it is used inside sample()
+        # (robust against a renamed local or an inlined literal)
+        if self.in_sample and node.value == 1000 and \
+                isinstance(node.value, int) and \
+                not isinstance(node.value, bool):
+            self.rewrites.append((node.lineno, node.value))
+            return ast.copy_location(
+                ast.Name(id='_SYMX_BLOCK', ctx=ast.Load()), node)
         return node
 
     def visit_Assign(self, node):
